@@ -277,9 +277,10 @@ theorem bond_fit (hc : GuardCodeOk) (s : State) (o b e v amt : Nat) (hi : FitInv
                   simp only [refreshPower, hf.1]
 
 theorem add_fit (hc : GuardCodeOk) (s : State) (o amt : Nat) (hi : FitInv s) : FitInv (addDelegate s o amt).1 := by
-  obtain ⟨_, _, _, _, _, _, _, a1, a2, a3, a4⟩ := hc
+  have hre := reactivate_eq hc
+  obtain ⟨_, _, _, _, _, _, _, a1, a2, a3, a4, _⟩ := hc
   unfold addDelegate
-  simp only [a1, a2, a3, a4, Bool.true_and]
+  simp only [a1, a2, a3, a4, Bool.true_and, hre]
   split
   · exact hi
   · rename_i hprop
